@@ -73,7 +73,7 @@ fn run_schedule(content: &[u8], chunk_lens: &[usize], cap: usize, pre: usize, st
         let mut w = w2.borrow_mut();
         let n = w.poll_no;
         w.poll_no += 1;
-        let pending = w.appended.len() - *w.delivered_bytes.borrow();
+        let pending = w.appended.len().saturating_sub(*w.delivered_bytes.borrow());
         if pending > 0 {
             w.polls_inside_line += 1;
         }
